@@ -43,19 +43,21 @@ def levels(tier):
              "anchored": [(1, 3, "path1")], "backend": "file"},
         ]
     return [
-        {"name": "pages-n2", "pools": ["a", "b", "c"], "n": 2, "alphabet": ["page", "links", "we"], "defaults": ["domain", "subdomain", "path1", "path2"],
-         "anchored": [None, (1, 3, "path1"), (1, 4, "path1"), (2, 3, "path2"), (2, 1, "subdomain"), (0, 3, "domain")], "links_batch": 1},
-        {"name": "pages-n3", "pools": ["a", "b"], "n": 3, "alphabet": ["page", "we"], "defaults": ["domain", "subdomain", "path1"],
-         "anchored": [None, (1, 3, "path1"), (1, 4, "path1"), (2, 3, "path2")]},
-        {"name": "install", "pools": ["a", "b", "c"], "n": 3, "alphabet": ["page"], "defaults": ["domain", "subdomain"],
-         "anchored": [None, (2, 1, "path1")], "late_rule": [(1, 3, "path1"), (1, 4, "path1"), (2, 4, "path2"), (2, 1, "subdomain"), (0, 2, "path1")]},
-        {"name": "special-hosts", "pools": ["s"], "n": 2, "alphabet": ["page", "we"], "defaults": ["domain", "subdomain", "path1", "path2"],
+        {"name": "special-hosts-wide", "pools": ["s"], "n": 2, "alphabet": ["page", "we"], "defaults": ["domain", "subdomain", "path1", "path2"],
          "anchored": [None, (0, 2, "path1"), (1, 2, "path2"), (2, 1, "subdomain"), (1, 3, "path1")]},
-        {"name": "reopen", "pools": ["a"], "n": 3, "prelude": [["page", 1, False]], "alphabet": ["page", "delwe", "reopen", "we"], "defaults": ["domain"],
-         "anchored": [(1, 3, "path1"), (1, 4, "path1")], "backend": "file"},
-        {"name": "handmade", "pools": ["a", "b"], "n": 2, "prelude": [["we", [[0, 3]]]], "alphabet": ["page", "we"],
-         "defaults": ["subdomain", "path1", "domain"], "anchored": [None, (2, 5, "path1")]},
+        {"name": "pages-n1-all", "pools": ["a", "b", "c"], "n": 1, "alphabet": ["page", "links"], "links_batch": 1,
+         "defaults": ["domain", "subdomain", "path1", "path2"],
+         "anchored": [None, (1, 3, "path1"), (1, 4, "path1"), (2, 3, "path2"), (2, 1, "subdomain"), (0, 3, "domain")]},
+        {"name": "handmade-wide", "pools": ["a", "b"], "n": 2, "prelude": [["we", [[0, 3]]]], "alphabet": ["page", "we"],
+         "defaults": ["subdomain", "path1", "domain"], "anchored": [None, (2, 5, "path1"), (0, 3, "domain")]},
         {"name": "L2", "pools": ["a"], "L": 2, "n": 2, "alphabet": ["page"], "defaults": ["domain", "path1"], "anchored": [None, (1, 3, "path1")]},
+        {"name": "pages-n2-wide", "pools": ["a", "b"], "n": 2, "alphabet": ["page", "we"], "defaults": ["domain", "subdomain"],
+         "anchored": [None, (1, 4, "path1"), (2, 1, "subdomain")]},
+        {"name": "install-wide", "pools": ["a", "b"], "n": 2, "alphabet": ["page"], "defaults": ["domain", "subdomain"],
+         "anchored": [None], "late_rule": [(1, 3, "path1"), (1, 4, "path1"), (2, 4, "path2"), (2, 1, "subdomain")]},
+        {"name": "reopen-n3", "pools": ["a"], "n": 3, "prelude": [["page", 1, False]], "alphabet": ["page", "delwe", "reopen"], "defaults": ["domain"],
+         "anchored": [(1, 3, "path1")], "backend": "file"},
+        {"name": "pages-n3", "pools": ["a"], "n": 3, "alphabet": ["page"], "defaults": ["domain"], "anchored": [None, (1, 4, "path1")]},
     ]
 
 
